@@ -71,6 +71,32 @@ class Kripke(DiGraph):
             else:
                 self._labels[state] = set()
 
+    def add_node(self, v):
+        r''' Add a new state to a Kripke structure
+
+        The new state is labelled by the empty set of atomic propositions.
+
+        :param v: a state
+        '''
+        super(Kripke, self).add_node(v)
+
+        if v not in self._labels:
+            self._labels[v] = set()
+
+    def add_edge(self, src, dst):
+        r''' Add a new transition to a Kripke structure
+
+        Any new state is labelled by the empty set of atomic propositions.
+
+        :param src: the source state of the transition
+        :param dst: the destination state of the transition
+        '''
+        super(Kripke, self).add_edge(src, dst)
+
+        for state in (src, dst):
+            if state not in self._labels:
+                self._labels[state] = set()
+
     def labelling_function(self):
         r''' Return the labelling function
 
